@@ -121,6 +121,11 @@ func (a *absoluteQuery) Select(t iterator) (n NodeNavigator) {
 	}
 	a.count++
 	n = t.Current().Copy()
+	if n.NodeType() == AttributeNode {
+		// Navigators keep their attribute position across MoveToRoot; leave
+		// the attribute first so that the root is reached as a tree node.
+		n.MoveToParent()
+	}
 	n.MoveToRoot()
 	return
 }
